@@ -45,13 +45,16 @@ CHECKS = {
          "precondition (nx.ancestors, is_connected on a non-null graph, topological_sort on an acyclic graph, set.pop, list.index in p_conditional) and every ValueError guard of "
          "line_2/line_3 is shown unreachable; its own `raise Unidentifiable` is reachable only under the published line-5 condition (G-X one district and G one district); every "
          "recursive call is again a valid query over an acyclic graph; line_1/2/3/7 build exactly the published recursive arguments (outcomes, treatments, graph, summation ranges); "
-         "no function writes to an object reachable from its arguments (frame) and Identification gets a fresh copy of the graph. Undecided (solver budget) and left to the bounded "
+         "no function writes to an object reachable from its arguments (frame) and Identification gets a fresh copy of the graph; the public wrapper identify_outcomes calls ID / IDC "
+         "on a valid query and lets no exception escape (Unidentifiable becomes None). Undecided (solver budget) and left to the bounded "
          "stand-in: the two line_7 guard obligations at its call site and line_7's final ValueError. Bounded part (decides 'refuses exactly when not identifiable' and 'caller's "
          "objects unchanged' end to end): identify_outcomes on every ADMG with 2-3 nodes x every query, textbook graphs, sampled 4-6 node ADMGs (incl. string-labelled graphs), "
-         "against an independent c-component identifiability criterion. Termination is not verified.",
+         "against an independent c-component identifiability criterion. Termination: every recursive call of `identify` is shown to decrease a well-founded measure (the node set "
+         "shrinks strictly -- lines 2 and 7, the latter via a proved cut: the district of G enclosing the single district of G-X is bidirected-connected, and G is not one district -- "
+         "or stays and the set of non-treatment nodes shrinks strictly -- lines 3 and 4); loops inside the graph operations iterate over finite containers and are not given variants.",
          TRUST + "; trusted mathematics: hedge criterion (Shpitser & Pearl 2006) = Tian-Pearl c-component criterion used by the oracle; assumed contracts: p_conditional, Product.safe over an index set (opaque)",
          TECH + " + bounded end-to-end check against an independent identifiability oracle", "DESIGN.md §5 C02"),
- "C01": ("other", "Shape layer proved for all graphs/queries: line_1, line_2, line_3, line_7 of ID build exactly the published recursive arguments -- outcomes, treatments (x & An(Y); x | W; x & S'), "
+ "C01": ("other", "Shape layer proved for all graphs/queries: line_1, line_2, line_3, line_4, line_7 of ID build exactly the published recursive arguments -- outcomes, treatments (x & An(Y); x | W; v - s_i per district s_i of G-X; x & S'), "
          "graph (G[An(Y)]; G; G[S']) and the summation ranges (V-Y; V-An(Y)) -- and `identify` follows the published case split (see C02). The expressions built in lines 4, 6, 7 "
          "(products of conditionals over a district, p_conditional) are opaque to the prover; that the returned estimand equals P(Y|do(X)) is decided by the labelled bounded stand-in: "
          "exact evaluation on random positive SCMs (one latent per bidirected edge), all value assignments including free variables, for every ADMG on 2-3 nodes x every query, a "
@@ -108,14 +111,16 @@ CHECKS = {
          "make_counterfactual_graph against a functional-SCM oracle (noise shared across worlds) on every ADMG with 2-3 nodes and sampled 3-4 node ADMGs with sampled conjunctions of "
          "up to 3 counterfactual events (non-reflexive subscripts).",
          TRUST + "; trusted mathematics: Shpitser & Pearl 2008 Lemmas 24, 25; the bounded part trusts y0vc/fscm.py", TECH + " (merge_pw) + bounded functional-SCM oracle", "DESIGN.md §5 C18"),
- "C06": ("other", "Deductive part (thin): the summation ranges that ID lines 1 and 2 introduce are proved, for all graphs and queries, to be nodes of the user's graph (plain variables), "
-         "as part of the line contracts shared with C01/C02. The vocabulary of complete estimands (a recursive predicate over expression trees: leaves, subscripts, population tags) "
+ "C06": ("other", "Deductive part: every summation range that ID introduces (lines 1, 2, 4, 6) and every argument of the conditionals P(v | predecessors) it builds (lines 6, 7) is proved, "
+         "for all graphs and queries, to be a plain node of the graph the function was called with (`audit.*` obligations attached to the Sum.safe / p_conditional call sites of "
+         "identify, line_1, line_2, line_7), and every recursive call is on a graph whose nodes are nodes of the caller's graph (the `decreases` obligations of C02) -- so, inductively, "
+         "of the user's graph. What a Sum.safe / p_conditional / marginalize call does with those arguments is an assumed leaf contract. The vocabulary of complete estimands (a recursive predicate over expression trees: leaves, subscripts, population tags) "
          "is outside what the contracts in place express; it is decided by the labelled bounded stand-in: a syntactic vocabulary check of the estimands returned by ID (C01 query set), "
          "IDC (C03 query set: only observational terms over graph nodes), ID* / IDC* (sampled events over every ADMG with 2-3 nodes and sampled 3-4 node ADMGs: every probability term "
          "single-world), and the transport algorithm (population tags of declared domains, only declared experiments, no selection node in leaves or ranges) on DAGs with 3-4 nodes and "
          "at most one bidirected edge away from outcomes and roots -- other shapes are left out because the unchanged library was reported (sub-agent, not reproduced deterministically) "
          "to depend on the hash seed there.",
-         TRUST, "bounded syntactic vocabulary check on enumerated / sampled queries + contract-based proof of the ranges of ID lines 1-2", "DESIGN.md §5 C06"),
+         TRUST, "bounded syntactic vocabulary check on enumerated / sampled queries + contract-based proof that ID's summation ranges and conditional arguments are graph nodes", "DESIGN.md §5 C06"),
  "C11": ("other", "No obligation is discharged for this property (stated in the evidence: obligations = 0): the Canon predicate (children sorted by the ordering, flat products sorted by an "
          "injective key) needs an ordered-sequence / sort-key theory the VC generator does not have, so the check is the labelled bounded stand-in only. On sampled well-scoped "
          "expressions of depth <= 3, products of 4-6 factors under random bracketings, and products of compound factors sharing their leading inner factor: idempotence, "
